@@ -506,6 +506,10 @@ func TestVerifC12Suppress(t *testing.T) {
 						if r.nW >= 2 {
 							ds.Add(fmt.Sprintf("%v", c))
 						}
+						if res.Evaluations%997 == 1 || r.nW >= 5 && res.Evaluations%101 == 2 {
+							res.Sample(fmt.Sprintf("cgroup %s BE subtree %s %v cache=%s old=%v target={%s} -> %d file writes, each judged as a crash point: %s",
+								ver, tr.Name, tr.Dirs, mode, c12sShow(old), c12sList(target), r.nW, strings.Join(r.trace, " ; ")))
+						}
 						for _, v := range r.viols {
 							c.Show = fmt.Sprintf("%s %s cache=%s old=%v target={%s}", ver, tr.Name, mode, c12sShow(old), c12sList(target))
 							res.Violate(mc.Violation{Key: v[0], What: v[1] + " | case " + c.Show + " | writes: " + strings.Join(r.trace, " ; "), Replay: c})
